@@ -221,7 +221,7 @@ def check(case, out):
 FACETS = [
     Facet("exact", lambda tier: cases(("frac",), pmax=5 if tier == "thorough" else 4,
                                       kmax=4 if tier == "thorough" else 3),
-          check, quick=700, thorough=16000, rule="Fraction profile, exact equality"),
+          check, quick=1600, thorough=16000, rule="Fraction profile, exact equality"),
     Facet("float", lambda tier: cases(("float", "npfloat"), pmax=4, kmax=3),
-          check, quick=300, thorough=6000, rule="float profile, 1e-9"),
+          check, quick=700, thorough=6000, rule="float profile, 1e-9"),
 ]
